@@ -649,7 +649,12 @@ func fresh() string {
 func runCase(c *mc.Ctx, family string, pi, ti int, prog []byte, split int, describe func() string) mc.Verdict {
 	intp := postscript.NewInterpreter()
 	var err error
-	if split > 0 && split < len(prog) {
+	if split == -1 {
+		// the whole program in one Read call, together with io.EOF
+		src := env.NewSource(prog)
+		src.Decide = func(call, want, remaining int) (int, bool) { return want, true }
+		err = intp.Execute(src)
+	} else if split > 0 && split < len(prog) {
 		src := env.NewSource(prog)
 		src.Decide = func(call, want, remaining int) (int, bool) {
 			if call == 0 {
@@ -1372,7 +1377,11 @@ func prefixSweepBody(c *mc.Ctx, item int) mc.Verdict {
 	ti := tis[c.Choose(len(tis))]
 	prog := buildSection(p, contBinary, gap, prefix, nil)
 	prog = append(prog, trailers[ti].text...)
-	return runCase(c, "prefix-byte-sweep", sweepPlains[pi], ti, prog, 0, func() string {
+	split := 0
+	if val%3 == 0 {
+		split = -1 // every third prefix value: delivered in one piece together with the end of the input
+	}
+	return runCase(c, "prefix-byte-sweep", sweepPlains[pi], ti, prog, split, func() string {
 		return fmt.Sprintf("binary section with ciphertext prefix % x (byte %d swept) after %q, plaintext %s, trailer %s", prefix[:], pos, gap, p.name, trailers[ti].name)
 	})
 }
